@@ -47,8 +47,11 @@ func c15Cache(c *vk.Ctx, stmt bool) {
 			}
 		}
 	}
-	// three tasks
+	// three tasks (statement-point mode: thorough tier only — they need a larger budget)
 	for i, sa := range a {
+		if stmt && !c.Thorough() {
+			break
+		}
 		sb := b[i%len(b)]
 		sc := a[(i+3)%len(a)]
 		jobs = append(jobs, mk(map[string]int{"cap": 2, "s0": harness.EncodeScript(sa...), "s1": harness.EncodeScript(sb...), "s2": harness.EncodeScript(sc...)}))
